@@ -133,9 +133,22 @@ class E2Explorer:
                         sigs1 = sorted(json.dumps(s, sort_keys=True, default=str) for s, _ in viols)
                         res_sum["confirmations"] = res_sum.get("confirmations", 0) + 1
                         if sigs1 != sigs2:
-                            res_sum["sched_errors"].append((devs, "violation not reproducible on re-execution: %s vs %s"
-                                                            % (sigs1[:2], (sigs2 or ["<divergence>"])[:2])))
-                            viols = []
+                            # a third execution decides: if it agrees with the second, the first observation was a
+                            # transient of the machinery (an event of a dying process overtaking another under machine
+                            # load) -- counted in the evidence, never reported; anything else is a machinery error
+                            _, res3 = _run(scn, devs, self.bindir, self.scratch, expect_of.get(devs))
+                            sigs3 = sorted(json.dumps(s, sort_keys=True, default=str) for s, _ in oracle(scn, res3)) \
+                                if res3["verdict"] != "sched-error" and not res3.get("divergence") else None
+                            if sigs3 is not None and sigs3 == sigs2:
+                                res_sum["unreproduced"] = res_sum.get("unreproduced", 0) + 1
+                                if sigs2:
+                                    viols = oracle(scn, res2)
+                                else:
+                                    viols = []
+                            else:
+                                res_sum["sched_errors"].append((devs, "violation not reproducible on re-execution: %s vs %s vs %s"
+                                                                % (sigs1[:2], (sigs2 or ["<divergence>"])[:2], (sigs3 or ["<divergence>"])[:2])))
+                                viols = []
                     for sig, detail in viols:
                         res_sum["violations"].append((devs, sig, detail))
                     if b < bound:
